@@ -57,6 +57,11 @@ def check(repo: Repo) -> Result:
 
     r6 = res.rule("C02-R6", "a registry rebuilt from a saved or copied table (deep copy, pickle, HDF5, JSON) keeps the scales of that table: the defaults are not re-added over it (shared with C11-R3)", floor=4)
     share(res, r6, "C11", lambda t: c11.rebuilt_from_table(repo, t), ["C11-R3"], want=lambda k: k.endswith(":no-defaults"), min_keys=4)
+    # ... and the saved table is the registry's whole table: rows left out of a pickle (e.g. every name the default table
+    # also has) come back with the default scale, whatever the registry had filed under them
+    from rules import c13
+
+    share(res, r6, "C13", lambda t: c13.ownership(repo, t), ["C13-R1"], want=lambda k: k == "pickle:complete-table", min_keys=1)
     from rules import c05
 
     r8 = res.rule("C02-R8", "decision table of Unit * Unit and Unit / Unit over abstract units: the scale of every returned unit is the product / quotient of the operands' scales, also on shortcut paths (shared with C05-R1)", floor=2)
